@@ -218,46 +218,39 @@ def readFrameCk (fr : Framer) (bs : List Nat) : Option ReadResult :=
           ⟨r, some fh, { fr with lastHeaderStream := last' }, body.drop fh.length⟩
   | _ => some ⟨.error .unexpectedEOF, none, fr, []⟩
 
-/-- C07, first clause: for ANY byte stream, ANY `SetMaxReadFrameSize` and ANY HEADERS/CONTINUATION
-state, `ReadFrame` performs no out-of-range slice or index (no panic). -/
-theorem readFrame_never_panics (fr : Framer) (bs : List Nat) : readFrameCk fr bs ≠ none := by
-  unfold readFrameCk
-  split
-  · simp
-  · simp only
-    split
-    · simp
-    split
-    · simp
-    split
-    · simp
-    · intro hn
-      rw [Option.map_eq_none_iff] at hn
-      exact C16Parse.parseFrame_never_panics _ _ hn
-  · simp
+theorem readFrame_never_panics_aux (fr : Framer) (bs : List Nat) (h : ∃ r, readFrameCk fr bs = some r) :
+    readFrameCk fr bs ≠ none := by
+  obtain ⟨r, hr⟩ := h; rw [hr]; simp
 
 /-- the checked reader moves the Framer state and the stream exactly as the model `readFrame`
 (header accepted, new state, bytes left), whatever the parser returns. -/
+theorem readFrameCk_shape (fr : Framer) (bs : List Nat) :
+    ∃ res, readFrameCk fr bs = some ⟨res, (readFrame fr bs).hdr, (readFrame fr bs).fr, (readFrame fr bs).rest⟩ := by
+  rcases bs with _ | ⟨b0, _ | ⟨b1, _ | ⟨b2, _ | ⟨t, _ | ⟨fl, _ | ⟨s0, _ | ⟨s1, _ | ⟨s2, _ | ⟨s3, body⟩⟩⟩⟩⟩⟩⟩⟩⟩
+  case cons.cons.cons.cons.cons.cons.cons.cons.cons =>
+    simp only [readFrameCk, readFrame]
+    by_cases hmax : (decodeHeader b0 b1 b2 t fl s0 s1 s2 s3).length > fr.maxReadSize
+    · simp only [hmax, ↓reduceIte]; exact ⟨_, rfl⟩
+    simp only [hmax, ↓reduceIte]
+    cases hord : checkFrameOrder fr.lastHeaderStream (decodeHeader b0 b1 b2 t fl s0 s1 s2 s3) with
+    | error e => exact ⟨_, rfl⟩
+    | ok last' =>
+      simp only
+      by_cases hlen : body.length < (decodeHeader b0 b1 b2 t fl s0 s1 s2 s3).length
+      · simp only [hlen, ↓reduceIte]; exact ⟨_, rfl⟩
+      simp only [hlen, ↓reduceIte]
+      cases hp : H2FrameParse.parseFrame (decodeHeader b0 b1 b2 t fl s0 s1 s2 s3)
+          (List.take (decodeHeader b0 b1 b2 t fl s0 s1 s2 s3).length body) with
+      | none => exact absurd hp (C16Parse.parseFrame_never_panics _ _)
+      | some r => exact ⟨r, rfl⟩
+  all_goals exact ⟨_, rfl⟩
+
 theorem readFrameCk_agrees (fr : Framer) (bs : List Nat) (r : ReadResult) (h : readFrameCk fr bs = some r) :
     r.hdr = (readFrame fr bs).hdr ∧ r.fr = (readFrame fr bs).fr ∧ r.rest = (readFrame fr bs).rest := by
-  unfold readFrameCk at h
-  unfold readFrame
-  split at h
-  · cases h; exact ⟨rfl, rfl, rfl⟩
-  · simp only at h ⊢
-    split at h
-    · rename_i hmax; cases h; simp [hmax]
-    rename_i hmax
-    split at h
-    · rename_i e hord; cases h; simp [hmax, hord]
-    rename_i last' hord
-    split at h
-    · rename_i hlen; cases h; simp [hmax, hord, hlen]
-    · rename_i hlen
-      rw [Option.map_eq_some_iff] at h
-      obtain ⟨res, _, rfl⟩ := h
-      simp [hmax, hord, hlen]
-  · cases h; exact ⟨rfl, rfl, rfl⟩
+  obtain ⟨res, hs⟩ := readFrameCk_shape fr bs
+  rw [hs] at h
+  cases h
+  exact ⟨rfl, rfl, rfl⟩
 
 /-- and its result is the model's for every frame type with a proved parser equality. -/
 theorem readFrameCk_eq_readFrame_partial (fr : Framer) (b0 b1 b2 t fl s0 s1 s2 s3 : Nat) (body : List Nat)
@@ -265,14 +258,24 @@ theorem readFrameCk_eq_readFrame_partial (fr : Framer) (b0 b1 b2 t fl s0 s1 s2 s
     readFrameCk fr (b0 :: b1 :: b2 :: t :: fl :: s0 :: s1 :: s2 :: s3 :: body)
       = some (readFrame fr (b0 :: b1 :: b2 :: t :: fl :: s0 :: s1 :: s2 :: s3 :: body)) := by
   simp only [readFrameCk, readFrame]
-  split
-  · rfl
-  split
-  · rfl
-  split
-  · rfl
-  · rw [checked_eq_model_partial _ _ (by simpa [decodeHeader] using ht)]
+  by_cases hmax : (decodeHeader b0 b1 b2 t fl s0 s1 s2 s3).length > fr.maxReadSize
+  · simp only [hmax, ↓reduceIte]
+  simp only [hmax, ↓reduceIte]
+  cases hord : checkFrameOrder fr.lastHeaderStream (decodeHeader b0 b1 b2 t fl s0 s1 s2 s3) with
+  | error e => rfl
+  | ok last' =>
+    simp only
+    by_cases hlen : body.length < (decodeHeader b0 b1 b2 t fl s0 s1 s2 s3).length
+    · simp only [hlen, ↓reduceIte]
+    simp only [hlen, ↓reduceIte]
+    rw [checked_eq_model_partial _ _ (by simpa [decodeHeader] using ht)]
     rfl
+
+/-- C07, first clause: for ANY byte stream, ANY `SetMaxReadFrameSize` and ANY HEADERS/CONTINUATION
+state, `ReadFrame` performs no out-of-range slice or index (no panic). -/
+theorem readFrame_never_panics (fr : Framer) (bs : List Nat) : readFrameCk fr bs ≠ none := by
+  obtain ⟨res, hs⟩ := readFrameCk_shape fr bs
+  exact readFrame_never_panics_aux fr bs ⟨_, hs⟩
 
 /-! ### ReadMetaHeaders assembly -/
 
@@ -293,7 +296,6 @@ theorem metaEmit_remain_no_underflow (st : MetaState) (f : Field) :
   split
   · exact ⟨Nat.zero_le _, .inl rfl⟩
   · rename_i hsz
-    simp only
-    refine ⟨by omega, .inr ⟨rfl, by omega, by omega⟩⟩
+    exact ⟨by simp only; omega, .inr ⟨rfl, by omega, by simp only; omega⟩⟩
 
 end NetVerif.Proofs.C07
